@@ -3,4 +3,5 @@ CONSTANTS
 INIT Init
 NEXT Next
 INVARIANT ExactlyOne
+INVARIANT SiblingFree
 INVARIANT EmitInv
